@@ -534,6 +534,45 @@ var All = []Prog{
 		k, _, _ := reflect.Select([]reflect.SelectCase{{Dir: reflect.SelectSend, Chan: reflect.ValueOf(make(chan int)), Send: reflect.ValueOf(1)}, {Dir: reflect.SelectDefault}})
 		return out + fmt.Sprint(" ", k)
 	}, []string{"true false xtrue false false ztrue true false 1"}},
+	{"server-goroutine/parked-after-use", func() string {
+		// a goroutine that owns the state and serves requests for ever: parked, not deadlocked, at the end
+		req := make(chan func(*int))
+		go func() {
+			n := 0
+			for f := range req {
+				f(&n)
+			}
+		}()
+		out := make(chan int, 2)
+		var wg sync.WaitGroup
+		for i := 0; i < 2; i++ {
+			wg.Add(1)
+			go func() {
+				defer wg.Done()
+				req <- func(n *int) { *n++; out <- *n }
+			}()
+		}
+		wg.Wait()
+		return fmt.Sprint(<-out + <-out)
+	}, []string{"3"}},
+	{"afterfunc/reset-runs-again", func() string {
+		got := make(chan int, 4)
+		n := 0
+		var tm *time.Timer
+		tm = time.AfterFunc(time.Microsecond, func() { n++; got <- n })
+		a := <-got
+		tm.Reset(time.Microsecond)
+		b := <-got
+		stopped := tm.Stop()
+		return fmt.Sprint(a, b, stopped)
+	}, []string{"1 2 false"}},
+	{"finalizer/never-required", func() string {
+		type box struct{ v int }
+		b := &box{7}
+		runtime.SetFinalizer(b, func(*box) {})
+		runtime.KeepAlive(b)
+		return fmt.Sprint(b.v)
+	}, []string{"7"}},
 	{"janitor/sleeps-for-ever", func() string {
 		// a background goroutine that never ends must not keep the execution alive (nor count as a deadlock)
 		var n atomic.Int64
